@@ -140,6 +140,11 @@ func zeroValueProgs(base int) []*Prog {
 				line("m[k] += 3")
 				line("m[k] /= 2")
 				line("m[k] -= 2")
+				line("fmt.Println(m[k])")
+				line("m[k] = 7") // an untyped constant stored over an existing entry takes the element type
+				line("m[k] = m[k] / 2")
+				line("m[k] = 200")
+				line("m[k] += 100")
 				line("x := m[k] + nm[k]")
 				line("fmt.Println(m[k], x, x*x*x*x*x, len(m))")
 			}
